@@ -7,6 +7,7 @@ import (
 	"hash/fnv"
 	"os"
 	"path/filepath"
+	"regexp"
 	"runtime/debug"
 	"strconv"
 	"strings"
@@ -28,6 +29,54 @@ type cctx struct {
 	cwd    string
 	nsamp  int
 	root   string // the root the oracle judges against (default: the sandbox root)
+	pend   map[string]*pendingViol
+	order  []string
+}
+
+type pendingViol struct {
+	what   string
+	detail any
+	count  int
+	score  int
+}
+
+// viol buffers a violation; per signature the most telling witness is kept (effects
+// observed outside the root first, then the shortest name).
+func (c *cctx) viol(sig, what string, detail any, score int) {
+	if c.pend == nil {
+		c.pend = map[string]*pendingViol{}
+	}
+	p := c.pend[sig]
+	if p == nil {
+		c.pend[sig] = &pendingViol{what, detail, 1, score}
+		c.order = append(c.order, sig)
+		return
+	}
+	p.count++
+	if score > p.score {
+		p.what, p.detail, p.score = what, detail, score
+	}
+}
+
+// periodic is the lazy mode's cross-check of the outside snapshot.
+func (c *cctx) periodic(comp string) {
+	if d := c.sb.check(); len(d) > 0 {
+		if len(d) > 12 {
+			d = d[:12]
+		}
+		c.b.Violation("C18:outside-modified:"+comp+":periodic-snapshot",
+			"files outside the root changed during one of the last operations of this child (lazy snapshot of a traced child): "+strings.Join(d, "; "),
+			map[string]any{"comp": comp, "root": c.sb.Root, "depth": c.sp.Depth, "base": c.sb.Base, "shard": c.sp.Shard, "outside_diff": d, "before_op": c.opno})
+	}
+}
+
+func (c *cctx) flushViolations() {
+	for _, sig := range c.order {
+		p := c.pend[sig]
+		for i := 0; i < p.count; i++ {
+			c.b.Violation(sig, p.what, p.detail)
+		}
+	}
 }
 
 func (c *cctx) oroot() string {
@@ -105,12 +154,23 @@ func (c *cctx) do(ni *nameInfo, op string, fn func() (error, [][]byte)) *opRes {
 	marker(no, "e")
 	res.OK = err == nil
 	res.Err = errStr(err)
+	// canary file *contents* carry CTok; canary file *names* carry Token. A name the
+	// harness itself supplied may contain Token, so only the scan (which reports file
+	// names it found) is checked for Token.
 	for _, bl := range res.blobs {
-		if bytes.Contains(bl, []byte(c.sb.Token)) {
+		if bytes.Contains(bl, []byte(c.sb.CTok)) || (ni.Comp == "scan" && bytes.Contains(bl, []byte(c.sb.Token))) {
 			res.Leak = true
 		}
 	}
-	res.Diff = c.sb.check()
+	// Traced children of the thorough tier snapshot lazily: every change outside the
+	// root needs a file-class system call inside the operation's window, which the
+	// path-access oracle sees; the snapshot is then only needed to put overwritten
+	// canaries back (after an accepted escape) and as a periodic cross-check.
+	if !c.sp.Lazy || (ni.Esc && err == nil) {
+		res.Diff = c.sb.check()
+	} else if c.opno%64 == 0 {
+		c.periodic(ni.Comp)
+	}
 	if len(res.Diff) > 12 {
 		res.Diff = append(res.Diff[:12], fmt.Sprintf("… %d more", len(res.Diff)-12))
 	}
@@ -133,9 +193,19 @@ func (c *cctx) do(ni *nameInfo, op string, fn func() (error, [][]byte)) *opRes {
 			"resolved_target": ni.Target, "escaping": ni.Esc, "class": ni.Class, "root": c.sb.Root, "oracle_root": c.oroot(), "extra": ni.Extra, "depth": c.sp.Depth,
 			"base": c.sb.Base, "shard": c.sp.Shard, "result_err": res.Err, "outside_diff": res.Diff, "canary_token_returned": res.Leak}
 	}
+	score := 1000 - len(ni.Name)
+	if score < 0 {
+		score = 0
+	}
+	if res.Leak {
+		score += 4000
+	}
+	if len(res.Diff) > 0 {
+		score += 2000
+	}
 	switch {
 	case ni.Esc && res.Panicked:
-		c.b.Violation("C18:panic:"+compop+":"+ni.Class, fmt.Sprintf("%s panicked on an escaping name instead of rejecting it: %q", compop, ni.Name), detail())
+		c.viol("C18:panic:"+compop+":"+ni.Class, fmt.Sprintf("%s panicked on an escaping name instead of rejecting it: %q", compop, ni.Name), detail(), score)
 	case res.Panicked:
 		c.b.Note("%s panicked on the non-escaping name %q: %s", compop, ni.Name, clip(res.Err, 200))
 	}
@@ -144,9 +214,9 @@ func (c *cctx) do(ni *nameInfo, op string, fn func() (error, [][]byte)) *opRes {
 		c.b.Count("escaping."+ni.Comp, 1)
 		if accepted {
 			c.b.Count("escaping_accepted."+ni.Comp, 1)
-			c.b.Violation("C18:escape-accepted:"+compop+":"+ni.Class,
+			c.viol("C18:escape-accepted:"+compop+":"+ni.Class,
 				fmt.Sprintf("%s accepted a name that resolves outside its root (%q -> %s; outside changed: %v; canary returned: %v)",
-					compop, ni.Name, ni.Target, len(res.Diff) > 0, res.Leak), detail())
+					compop, ni.Name, ni.Target, len(res.Diff) > 0, res.Leak), detail(), score)
 		} else {
 			c.b.Count("escaping_rejected."+ni.Comp, 1)
 		}
@@ -158,12 +228,12 @@ func (c *cctx) do(ni *nameInfo, op string, fn func() (error, [][]byte)) *opRes {
 	}
 	if len(res.Diff) > 0 && !accepted {
 		cl := ni.Class
-		c.b.Violation("C18:outside-modified:"+compop+":"+cl,
-			fmt.Sprintf("%s changed files outside its root (name %q, returned error: %v): %s", compop, ni.Name, !res.OK, strings.Join(res.Diff, "; ")), detail())
+		c.viol("C18:outside-modified:"+compop+":"+cl,
+			fmt.Sprintf("%s changed files outside its root (name %q, returned error: %v): %s", compop, ni.Name, !res.OK, strings.Join(res.Diff, "; ")), detail(), score)
 	}
 	if res.Leak && !accepted {
-		c.b.Violation("C18:outside-read:"+compop+":"+ni.Class,
-			fmt.Sprintf("%s returned canary content that only exists outside its root (name %q)", compop, ni.Name), detail())
+		c.viol("C18:outside-read:"+compop+":"+ni.Class,
+			fmt.Sprintf("%s returned canary content that only exists outside its root (name %q)", compop, ni.Name), detail(), score)
 	}
 	return res
 }
@@ -188,7 +258,7 @@ func (c *cctx) classify(ni *nameInfo, base string, joined bool, arg string) {
 
 func (c *cctx) sample(ni *nameInfo, rs ...*opRes) {
 	// keep a few escaping and a few inside cases per child
-	if c.nsamp >= 3 {
+	if c.nsamp >= 3 || len(ni.Name) > 100 {
 		return
 	}
 	if (c.nsamp == 0) != ni.Esc {
@@ -227,6 +297,8 @@ func creatable(root, target string) bool {
 	return true
 }
 
+var runDirRe = regexp.MustCompile(`run-[A-Za-z0-9]+-[0-9]+`)
+
 func strHash(s string) uint64 {
 	h := fnv.New64a()
 	h.Write([]byte(s))
@@ -236,7 +308,8 @@ func strHash(s string) uint64 {
 // choice returns the PRNG stream that decides how one name is presented to the
 // component; it depends on the name only, so a replay of the name makes the same choices.
 func (c *cctx) choice(name string) *vlib.Rand {
-	return vlib.NewRand(c.sp.Seed, "C18/choice/"+c.sp.Comp, strHash(name))
+	// the run's scratch directory is part of absolute names; keep the choice independent of it
+	return vlib.NewRand(c.sp.Seed, "C18/choice/"+c.sp.Comp, strHash(runDirRe.ReplaceAllString(strings.ReplaceAll(name, c.dir, "$CHILD"), "run-N")))
 }
 
 func childMain(dir string) {
@@ -290,6 +363,10 @@ func childMain(dir string) {
 		os.Exit(3)
 	}
 	c.b.Extra["cwd"] = c.cwd
+	if c.sp.Lazy {
+		c.periodic(sp.Comp)
+	}
+	c.flushViolations()
 	if c.opsLog != nil {
 		c.opsLog.Flush()
 	}
